@@ -105,6 +105,7 @@ func checkC09(p *Prog, res *Result, tier string) {
 	res.rule("C09-R2", "the compaction revision is clamped to the committed revision and to MinRevision()-1 of the repair queue", 1)
 	res.rule("C09-R3", "repair write shape and queue discipline", 5)
 	res.rule("C09-R4", "engine-commit error classification of the TiKV adapter", 3)
+	res.rule("C09-R8", "in pkg/backend the error of an engine read (Iter, Next, Get) is returned unless it was found nil or classified (io.EOF, ErrKeyNotFound): 'not found' is answered only for end-of-data", 3)
 	res.rule("C09-R7", "the repair queue is a FIFO that loses nothing: push links the new entry behind the old tail and makes it the tail on every path", 2)
 	res.rule("C09-R6", "on the write path the error of a committing call is returned as is (or wrapped) unless it was found nil or classified (errors.Is / == sentinel / conflict assertion)", 6)
 	res.rule("C09-R5", "a nil error is returned to the client only after success or a definite failure class", 6)
@@ -229,6 +230,22 @@ func checkC09(p *Prog, res *Result, tier string) {
 
 	// ---- R7: queue discipline ----
 	checkQueueDiscipline(p, res)
+	// R8: the reads the write path and the repair rely on do not turn an engine failure into "key absent"
+	{
+		bp := p.ssaPkg("pkg/backend")
+		checkErrorPreservation(p, res, "C09-R8",
+			func(f *ssa.Function) bool { return f.Pkg == bp },
+			func(c ssa.CallInstruction) (string, bool) {
+				if !c.Common().IsInvoke() {
+					return "", false
+				}
+				switch c.Common().Method {
+				case r.KVIter, r.ItNext, r.KVGet:
+					return "storage." + c.Common().Method.Name(), true
+				}
+				return "", false
+			}, "an engine read failure would be answered as 'key not found': the repair of an unknown-outcome write takes the key for absent, drops the queued entry, and the write - if it landed - is never surfaced; a client's delete or update is answered with a definite 'not found'")
+	}
 
 	// ---- R6: the error of a committing call is never replaced on the write path ----
 	{
